@@ -31,6 +31,9 @@ def run(tier, seed):
         for (cont, skind, nk) in combos:
             nrep += 1
             for (clause, detail) in RI.replay(rec, cont, skind, nk):
+                if clause == "replay.impute.not_followed":
+                    ctx.skip("behaviours the imputer could not follow (different random primitives / number of draws)")
+                    continue
                 ctx.violation(clause, "strategy=%s container=%s storage=%s" % (rec["strategy"], cont, skind), detail,
                               {"behaviour": rec, "container": cont, "storage": skind, "names": nk})
         if rec["subset"]:
